@@ -1785,9 +1785,38 @@ class _Loop(StandardNode):
 
         carried_names = list(self.outputs.get_vars())[:n]
         carried_types = [v.type for v in list(body.requested_results.values())[1:][:n]]
+        argument_types = [v.type for v in body.requested_arguments[2:]]
 
-        for name, typ in zip(carried_names, carried_types):
-            output_types[name] = typ
+        # A final carried value is ``v_initial[i]`` if the body never runs and the body's
+        # i-th result otherwise, and from the second iteration on the body is fed its own
+        # results. So result types may only be reported when every result refines the type
+        # its argument was declared with -- and then only as far as both types agree.
+        def refines(res: Optional[Type], arg: Optional[Type]) -> bool:
+            if not isinstance(res, Tensor) or not isinstance(arg, Tensor):
+                return res is not None and res == arg
+            if res.dtype != arg.dtype or arg.shape is None:
+                return res.dtype == arg.dtype
+            return (
+                res.shape is not None
+                and len(res.shape) == len(arg.shape)
+                and all(
+                    a == r or not isinstance(a, int) for a, r in zip(arg.shape, res.shape)
+                )
+            )
+
+        def common(res: Type, arg: Type) -> Type:
+            if not isinstance(res, Tensor) or not isinstance(arg, Tensor):
+                return arg
+            if res.shape is None or arg.shape is None:
+                return Tensor(arg.dtype, None)
+            return Tensor(
+                arg.dtype,
+                tuple(a if a == r else None for a, r in zip(arg.shape, res.shape)),
+            )
+
+        if all(refines(r, a) for r, a in zip(carried_types, argument_types)):
+            for name, res, arg in zip(carried_names, carried_types, argument_types):
+                output_types[name] = common(res, arg)  # type: ignore
 
         return output_types
 
